@@ -37,4 +37,5 @@ def run(ctx):
     import re
     ctx.ob(rule, "precision", re.search(r"precision\s*<\s*0\s*\|\|\s*precision\s*>\s*17", src) is not None, tu.loc(fn.node), "precision < 0 || precision > 17 rejected")
     ctx.ob(rule, "buffer_size", re.search(r"buffer_size\s*<=\s*0", src) is not None, tu.loc(fn.node), "buffer_size <= 0 rejected")
+    lib_kind.discrete_flags(ctx, ctx.program())
     lib_mem.c_lints(ctx, ctx.program(), scopes.lib_scope("C18"))
